@@ -423,6 +423,18 @@ def wake_discipline(ctx, rule, fn_outs):
                 continue
             published = bool(pi["pushed"]) or pi["state_err"] or (pi.get("dropped_after") is not None and pi["dropped_after"] != live_field(R, pi["st0"], R["dropped_f"]))
             if not published:
+                # not publishing: then the parked waker must stay where it is (or be woken) -- a waker that is taken and
+                # dropped silently loses the consumer's registration: the next publish finds nobody to wake
+                tw = pi["took_waker"]
+                if tw is not None:
+                    tv = o.cons.variant_of(tw["result"])
+                    w = ("payload", tw["result"], "Some", "0")
+                    woke = any(e["args"][0] == w or (e["args"][0][0] == "ref" and e["snap"][0] == w) for e in pi["woke"])
+                    fw = final_read(ctx, o, pi["root"], (("f", R["waker_f"]),))
+                    restored = fw == tw["result"] or (is_agg(fw) and fw[3] == "Some" and agg_get(fw, "0") == w)
+                    if tv != "None" and not woke and not restored:
+                        ctx.violation(rule, "%s|%s|waker-discarded" % (rule, label), "%s: a path that publishes nothing takes the parked waker and neither wakes it nor puts it back: "
+                                      "the consumer's registration is lost and a later publish wakes nobody" % label, where=_w(o))
                 continue
             n += 1
             bad = []
@@ -814,3 +826,41 @@ def ctor_cap_positive(ctx, rule):
                 else:
                     ctx.violation(rule, "%s|%s" % (rule, fn), "%s can construct a writer with chunk size 0 (write would then accept 0 bytes forever)" % fn)
     ctx.floor(rule, n, 1, what="writer construction paths")
+
+
+def shared_initial_state(ctx, rule):
+    """the shared object is created live with an empty queue, a zero byte counter, the producer-finished flag clear and no
+    waker (base case of the accounting invariant `counter == sum of queued chunk lengths`)"""
+    R = roles(ctx)
+    sites = aggregates(ctx.facts, R["state_ty"], R["live"])
+    ctor_sites = [(b, i, st) for b, i, st in sites if " as " not in b["name"] and "poll_next" not in b["name"]]
+    n = 0
+    for b, i, st in aggregates(ctx.facts, R["shared"]):
+        outs = ctx.px(b["name"])
+        for o in outs:
+            if o.kind != "return":
+                continue
+            # find the shared aggregate among the allocations of this path
+            for key, v in o.state.env.items():
+                if key[0] == "H" and is_agg(v) and v[2] == R["shared"]:
+                    n += 1
+                    stv = agg_get(v, R["state_f"])
+                    wk = agg_get(v, R["waker_f"])
+                    bad = []
+                    if not (is_agg(stv) and stv[3] == R["live"]):
+                        bad.append("initial state is %s" % short(stv, 40))
+                    else:
+                        if agg_get(stv, R["bytes_f"]) != const(0):
+                            bad.append("initial queued-bytes counter is %s" % short(agg_get(stv, R["bytes_f"]), 30))
+                        if agg_get(stv, R["dropped_f"]) != const(0):
+                            bad.append("producer-finished flag initially set")
+                        q = agg_get(stv, R["queue_f"])
+                        if not (isinstance(q, tuple) and q[0] == "call" and q[1].endswith("VecDeque::<T>::new")):
+                            bad.append("initial queue is %s, not VecDeque::new()" % short(q, 40))
+                    if not (is_agg(wk) and wk[3] == "None"):
+                        bad.append("a waker is registered initially")
+                    if bad:
+                        ctx.violation(rule, "%s|%s" % (rule, bad[0][:30]), "shared object constructed in %s: %s" % (b["name"], "; ".join(bad)), where=F.loc(st["span"]))
+                    else:
+                        ctx.ok(rule, "%s: live, empty queue, counter 0, flag clear, no waker" % b["name"])
+    ctx.floor(rule, n, 1, what="construction paths of the shared object")
